@@ -156,7 +156,7 @@ func c09Select(v *vShard, q string) (rows []*c09Series, err error) {
 	}
 	stmt.OmitTime = true
 	rc := make(chan query.RowsChan)
-	sopt := query.SelectOptions{ChunkSize: 1024, RowsChan: rc, MaxQueryParallel: 1}
+	sopt := query.SelectOptions{ChunkSize: 1024, ChunkedSize: 10000, RowsChan: rc, MaxQueryParallel: 1}
 	ctx := context.WithValue(context.Background(), query.QueryDurationKey, (*statistics.SQLSlowQueryStatistics)(nil))
 	ex, err := executor.Select(ctx, stmt, &c09Mapper{v: v}, sopt)
 	if err != nil {
@@ -209,6 +209,7 @@ func TestVerifC09(t *testing.T) {
 	}
 	defer v.Close()
 	executor.SetLocalStorageForQuery(&c09Store{v: v})
+	executor.InitLocalStoreTemplatePlan()
 	m := vModel{}
 	for i, op := range []string{"Wc", "We", "F", "Wd", "Wh"} {
 		if err := vApply(v, m, op, i+1); err != nil {
